@@ -11,7 +11,11 @@ real shard, all keys are read and the recovered state must be in the spec's Allo
 then one more point is written, read back, snapshotted and read back.  WAL appends (write and delete-range entries) are
 additionally cut at byte offsets inside the unacknowledged entry (all offsets for short entries in the `full` cases, header
 offsets + seeded sample + one zero-filled tail otherwise), as are freshly written *.tsm.tmp / tombstone tmp files and the
-fields.idxl log.  The spec's own Crash step continues the behaviour on the image."""
+fields.idxl log.  The spec's own Crash step continues the behaviour on the image.
+Known-finding predicates (computed by the driver from the image kind and the step record): wal_zero_filled_tail_accepted and
+fields_log_zero_filled_tail_accepted -- only for images whose unacknowledged tail was ZERO-FILLED (full length, missing bytes),
+which is outside the property's quantifier (truncation points); every truncation image, schedule-point image and boundary
+image is judged strictly."""
 import importlib.util
 import json
 import os
